@@ -191,13 +191,14 @@ def run_single(N: int, kind: str, ops, use_sampler=False, seed: int = 0, opts=No
     """ops: ("add", w) | ("sample", B) | ("clear",). Returns a trace dict for Ring_Trace.
     use_sampler: False/0 buffer.sample, True/1 Sampler(memory=buffer), 2 Sampler(dataset, dataloader) (the accelerator path).
     opts (all optional): act_dim, obs_dtype (None|"int64"|"float64"), dtype ("float32"|"float64"), vary (default True: unbatched width-1 additions, key order,
-    return_idx and in-place modification of handed batches vary along the run)."""
+    return_idx and in-place modification of handed batches vary along the run), handed_max (keep only the most recent
+    handed_max handed-out batches under observation; default: all)."""
     from agilerl.components.data import ReplayDataset
     from agilerl.components.replay_buffer import ReplayBuffer
     from agilerl.components.sampler import Sampler
     from torch.utils.data import DataLoader
 
-    o = {"act_dim": 1, "dtype": "float32", "obs_dtype": None, "vary": True}
+    o = {"act_dim": 1, "dtype": "float32", "obs_dtype": None, "vary": True, "handed_max": None}
     o.update(opts or {})
     mode = SAMPLER_MODES[int(use_sampler)]
     torch.manual_seed(seed)
@@ -254,6 +255,8 @@ def run_single(N: int, kind: str, ops, use_sampler=False, seed: int = 0, opts=No
                     _clobber(b)                 # the learner overwrites its batch in place: the buffer must not notice
                 else:
                     handed.append((b, ids))
+                    if o["handed_max"] and len(handed) > o["handed_max"]:
+                        del handed[0]
             elif op[0] == "clear":
                 buf.clear()
             else:
